@@ -29,11 +29,15 @@ HARNESSES = [
        "Lis/PStrLoc are Compound; [] is Atom", "56-bit fixnum, locations < 2^40", timeout=1200),
     HT("c13_category_bignum", 120, "a bignum cell is in the Integer class (same as fixnums)",
        "any i64 stored as a bignum", timeout=1200),
-    HA("c21_order_1", 40, "atoms order by their bytes (= code points in UTF-8)", "|s|=1"),
-    HA("c21_order_6_first", 120, "same", "|s|=6 pos 0", timeout=1500),
+    HA("c21_order_1", 400, "atoms order by their bytes (= code points in UTF-8)", "|s|=1", tiers=T,
+       timeout=3600),
+    HA("c21_order_6_first", 900, "same", "|s|=6 pos 0", tiers=T, timeout=3600),
+    HA("c21_roundtrip_2", 30, "as_str(new_inlined(s)) == s (with the MIR fact Atom::cmp = str::cmp on "
+       "as_str texts: atoms order by their bytes)", "|s|=2"),
+    HA("c21_roundtrip_6a", 40, "same", "|s|=6"),
     HA("c21_order_3", 60, "same", "|s|=3", tiers=T),
     HA("c21_order_6_last", 120, "same", "|s|=6 pos 5", tiers=T, timeout=1500),
-    HA("c21_prefix_is_smaller", 60, "proper prefix sorts first", "|s|=2 vs 3"),
+    HA("c21_prefix_is_smaller", 400, "proper prefix sorts first", "|s|=2 vs 3", tiers=T, timeout=3600),
     HN("c04_cmp_fix_fix", 20, "numbers of a class compare by value (integers)", "56-bit"),
     HN("c04_cmp_float_float", 20, "floats compare by value", "finite doubles"),
 ]
@@ -46,5 +50,17 @@ OUTSIDE = ("compare_pstr_slices (758 s with two symbolic bytes), ParallelHeapIte
            "transitivity over compound terms are not covered")
 
 
+def mpost(results):
+    from vlib import static_atoms
+    ok = static_atoms.atom_order_wiring()
+    from vlib.common import EXIT_INCONCLUSIVE, log
+    log("  Atom::cmp = str::cmp(as_str(a), as_str(b)) (MIR): %s" % ok)
+    r = {"evaluations": 1, "distinct_nontrivial": 1 if ok else 0,
+         "samples": [{"query": "<Atom as Ord>::cmp compares the as_str texts, self first", "answer": ok}]}
+    if not ok:
+        r["exit"] = EXIT_INCONCLUSIVE
+    return r
+
+
 def run(tier):
-    return kprop.run("C13", HARNESSES, tier, ASSUME, ENCODED, BOUNDS, OUTSIDE)
+    return kprop.run("C13", HARNESSES, tier, ASSUME, ENCODED, BOUNDS, OUTSIDE, post=mpost)
